@@ -17,7 +17,7 @@ CLAIMS = {
          "operands is rustc's.", "§4 C01"),
  "C02": ("field-effect analysis over MIR + structural HIR rules",
          "Decides necessary structural conditions of the fixed point: every context/segment field a pass mutates is reset for the next pass or tabled persistent; "
-         "changed and newly filled symbols force another pass; the only successful loop exit requires no errors and nothing undefined; all program-visible addresses "
+         "changed, newly filled and first-defined symbols force another pass, and whether a value changed is decided by `!=` or by a comparator that does not stop at the kind of value; the only successful loop exit requires no errors and nothing undefined; all program-visible addresses "
          "(labels, block symbols, `*`, source map) live in the target address space and `* =` converts before setting the physical pc. Convergence and values on "
          "concrete programs are not decided.", "§4 C02"),
  "C03": ("table agreement parser ↔ AST ↔ printer ↔ evaluator ↔ documentation (typed HIR)",
@@ -39,7 +39,7 @@ CLAIMS = {
          "into the asserting Identifier constructor, a finite pass bound with a diagnostic, no unwrap/expect on Result<_, Diagnostics> or on I/O results of the command-line path, an import-cycle check in front of the recursive expansion that tests the very value it pushes, a char-boundary test in front of case-insensitive tags that a longer character can fold to. Absence of all panics, "
          "stack depth and termination of arbitrary programs are not decided.", "§4 C06"),
  "C07": ("structural rules on typed HIR + must-pass-through on MIR",
-         "Decides the structural clauses only: polarity of `.if`, iteration domain and `index` binding of `.loop`, positional macro binding after the arity check, "
+         "Decides the structural clauses only: polarity of `.if` (true is `!= 0`), iteration domain and `index` binding of `.loop`, positional macro binding after the arity check, "
          "a macro scope of its own named after the invocation's position (the same in every pass) and entered with the definition's block, balanced scope/dummy-segment push-pop on every path, per-block symbol insertions not allowed to fail silently, the scoped macro lookup on every path (must-call with wrapper summaries), argument evaluation in the invoking scope, and the defining edge as a symbol's parent. "
          "Equivalence with the hand expansion on concrete programs is not decided.", "§4 C07"),
  "C08": ("grammar extraction from nom combinators: terminal case and trivia-wrapper rules",
@@ -55,7 +55,7 @@ CLAIMS = {
          "reported; a walk in hash order branches on no first-come membership answer (visited-sets), so tabled reasons stay true. Environment nondeterminism is not decided.", "§4 C10"),
  "C11": ("must-pass-through on MIR + two interprocedural label propagations (target vs physical address space)",
          "Single emission choke point with a source-map entry of exactly the emitted length on every path; no comparison or subtraction mixes a target-space address with "
-         "a physical one without the relocation offset; macro re-attribution only under the listing option and by position; half-open address lookups; no context field is overwritten before and read after a nested activation of the code generator without being restored (re-entrancy analysis); listing rows are cut at address gaps, read from the entry's own segment and written to distinct files; the row without bytes and the rows with bytes are decided on the same collection (every source line gets a row); no collection there is keyed by a target address alone. Row layout on concrete programs is not decided.", "§4 C11"),
+         "a physical one without the relocation offset; macro re-attribution only under the listing option and by position; half-open address lookups; no context field is overwritten before and read after a nested activation of the code generator without being restored (re-entrancy analysis); listing rows are cut at address gaps, read from the entry's own segment and written to distinct files; the row without bytes and the rows with bytes are decided on the same collection (every source line gets a row); no collection there is keyed by a target address alone; the source map is append-only as long as entries are addressed by position. Row layout on concrete programs is not decided.", "§4 C11"),
  "C12": ("formatter coverage and trivia-carrier rules on typed HIR + dominance on MIR",
          "Every text-carrying field of every AST variant is emitted; a Located emitted through `.data` is the token's leading element or tabled (so its comments cannot be lost); "
          "both comment kinds become comment chunks and only blank lines are suppressed; `mos format` writes only after the whole project parsed; a chunk-dropping decision never depends on the text of the line; no Located value of an argument list is written through its data alone and no trivia list is copied selectively by item kind; a joined line is replaced by a part of itself only where the rest is blank. Token-sequence and byte "
